@@ -293,10 +293,12 @@ package signing
 //@   requires [own-values] round.temp.pointGamma != nil && validPoint(round.temp.pointGamma) && round.temp.pointGamma.curve == round.Parameters.ec && round.temp.thetaInverse != nil && 0 < val(round.temp.thetaInverse) && val(round.temp.thetaInverse) < secpN && round.temp.m != nil && round.temp.k != nil && round.temp.sigma != nil && val(round.temp.m) >= 0 && val(round.temp.k) >= 0 && val(round.temp.sigma) >= 0 && len(round.temp.ssid) <= 4096
 //@   site (*crypto.ECPoint).ScalarMult#1 assume : [ND-own-signature-share-nonzero] val($arg1) % secpN != 0
 //@   note ND-own-signature-share-nonzero: s_i = m*k_i + r*sigma_i mod q is zero with probability 2^-256 and cannot be steered by a peer (it would need k_i); R.ScalarMult(0) would panic
-//@   modifies round.number, round.started, round.ok[*], round.temp.w, round.temp.k, round.temp.li, round.temp.bigAi, round.temp.bigVi, round.temp.roi, round.temp.DPower, round.temp.si, round.temp.rx, round.temp.ry, round.temp.bigR, round.temp.signRound5Messages[*], sent(round.out)
+//@   modifies round.number, round.started, round.ok[*], round.temp.w, round.temp.k, round.temp.li, round.temp.bigAi, round.temp.bigVi, round.temp.roi, round.temp.DPower, round.temp.si, round.temp.rx, round.temp.ry, round.temp.bigR, round.temp.signRound5Messages[*], sent(round.out), zkok(0)
+//@   ensures [C05.every-peer-gamma-proof-was-checked-and-accepted] result == nil ==> zkok(0) == old(zkok(0)) + sgN(round) - 1
 //@   ensures [C05.a-failing-opening-or-proof-blames-exactly-its-sender] (result != nil && !old(round.started) && len(result.culprits) > 0) ==> (len(result.culprits) == 1 && peerOf(round, result.culprits[0]))
 //@   ensures [C01.nothing-sent-on-error] result != nil ==> sent(old(round.out)) == old(sent(round.out))
 //@   loop 0 invariant round.started && R != nil && validPoint(R) && R.curve == round.Parameters.ec && sent(round.out) == old(sent(round.out))
+//@   loop 0 invariant zkok(0) == old(zkok(0)) + $iter - ite($iter > sgI(round), 1, 0)
 
 // round_7.go: open every peer's (V_j, A_j) commitment and check both proofs.
 //@ define sg5slot(m) = (!isnil(m) && istype(msgcontent(m), "*ecdsa/signing.SignRound5Message") && cast(msgcontent(m), "*ecdsa/signing.SignRound5Message") != nil)
@@ -306,12 +308,13 @@ package signing
 //@   requires round != nil && round.round6 != nil && round.round6.round5 != nil && round.round6.round5.round4 != nil && round.round6.round5.round4.round3 != nil && round.round6.round5.round4.round3.round2 != nil && round.round6.round5.round4.round3.round2.round1 != nil && round.round6.round5.round4.round3.round2.round1.base != nil && ecSignWF(round)
 //@   requires [rounds-5-and-6-complete] forall j in 0..sgN(round) :: (j != sgI(round) ==> (sg5slot(round.temp.signRound5Messages[j]) && sg6slot(round.temp.signRound6Messages[j])))
 //@   requires [own-values] round.temp.bigR != nil && validPoint(round.temp.bigR) && round.temp.bigR.curve == round.Parameters.ec && round.temp.bigAi != nil && wfPoint(round.temp.bigAi) && round.temp.bigVi != nil && wfPoint(round.temp.bigVi) && round.temp.m != nil && val(round.temp.m) >= 0 && round.temp.rx != nil && val(round.temp.rx) >= 0 && round.temp.roi != nil && round.temp.li != nil && round.key.ECDSAPub != nil && wfPoint(round.key.ECDSAPub) && len(round.temp.ssid) <= 4096
-//@   modifies round.number, round.started, round.ok[*], round.temp.Ui, round.temp.Ti, round.temp.DTelda, round.temp.signRound7Messages[*], sent(round.out)
+//@   modifies round.number, round.started, round.ok[*], round.temp.Ui, round.temp.Ti, round.temp.DTelda, round.temp.signRound7Messages[*], sent(round.out), zkok(0), zkvok(0)
+//@   ensures [C05.every-peer-proof-pair-was-checked-and-accepted] result == nil ==> (zkok(0) == old(zkok(0)) + sgN(round) - 1 && zkvok(0) == old(zkvok(0)) + sgN(round) - 1)
 //@   ensures [C05.a-failing-opening-or-proof-blames-exactly-its-sender] (result != nil && !old(round.started)) ==> (len(result.culprits) == 1 && peerOf(round, result.culprits[0]))
 //@   ensures [C01.nothing-sent-on-error] result != nil ==> sent(old(round.out)) == old(sent(round.out))
-//@   loop 0 invariant round.started && fresh(bigVjs) && fresh(bigAjs) && len(bigVjs) == sgN(round) && len(bigAjs) == sgN(round) && arr(bigVjs) != arr(bigAjs) && sent(round.out) == old(sent(round.out))
+//@   loop 0 invariant zkok(0) == old(zkok(0)) + $iter - ite($iter > sgI(round), 1, 0) && zkvok(0) == old(zkvok(0)) + $iter - ite($iter > sgI(round), 1, 0) && round.started && fresh(bigVjs) && fresh(bigAjs) && len(bigVjs) == sgN(round) && len(bigAjs) == sgN(round) && arr(bigVjs) != arr(bigAjs) && sent(round.out) == old(sent(round.out))
 //@   loop 0 invariant forall k in 0..$iter :: (k != sgI(round) ==> (bigVjs[k] != nil && wfPoint(bigVjs[k]) && bigAjs[k] != nil && wfPoint(bigAjs[k])))
-//@   loop 1 invariant round.started && len(bigVjs) == sgN(round) && len(bigAjs) == sgN(round) && VX != nil && VY != nil && AX != nil && AY != nil && sent(round.out) == old(sent(round.out))
+//@   loop 1 invariant zkok(0) == old(zkok(0)) + sgN(round) - 1 && zkvok(0) == old(zkvok(0)) + sgN(round) - 1 && round.started && len(bigVjs) == sgN(round) && len(bigAjs) == sgN(round) && VX != nil && VY != nil && AX != nil && AY != nil && sent(round.out) == old(sent(round.out))
 //@   loop 1 invariant forall k in 0..sgN(round) :: (k != sgI(round) ==> (bigVjs[k] != nil && wfPoint(bigVjs[k]) && bigAjs[k] != nil && wfPoint(bigAjs[k])))
 
 // round_9.go: open every peer's (U_j, T_j) commitment and compare the sums.
@@ -340,3 +343,15 @@ package signing
 //@   modifies round.number, round.started, round.ok[*], round.temp.signRound8Messages[*], sent(round.out)
 //@   ensures [C01.nothing-sent-on-error] result != nil ==> sent(old(round.out)) == old(sent(round.out))
 
+
+// round_1.go prepare: the derivation offset is added to a FRESH number; the big.Int
+// the caller's key data points to is not written.
+//@ func (*round1).prepare
+//@   props C06 C20 C18 C01
+//@   requires round != nil && round.base != nil && wfParams(round.Parameters) && issecp(round.Parameters.ec) && round.temp != nil && round.key != nil
+//@   requires [key-view] round.key.Xi != nil && val(round.key.Xi) >= 0 && 0 <= round.Parameters.partyID.Index && round.Parameters.partyID.Index < len(round.key.Ks) && len(round.key.Ks) == len(round.key.BigXj) && len(round.key.Ks) <= 1024 && (forall k in 0..len(round.key.Ks) :: (round.key.Ks[k] != nil && val(round.key.Ks[k]) >= 0 && val(round.key.Ks[k]) % secpN != 0)) && (forall a, b in 0..len(round.key.Ks) :: (a != b ==> (val(round.key.Ks[a]) != val(round.key.Ks[b]) && gcd(val(round.key.Ks[a]) - val(round.key.Ks[b]), secpN) == 1))) && (forall k in 0..len(round.key.BigXj) :: (validPoint(round.key.BigXj[k]) && round.key.BigXj[k].curve == round.Parameters.ec))
+//@   requires round.temp.keyDerivationDelta != nil ==> val(round.temp.keyDerivationDelta) >= 0
+//@   modifies round.key.Xi, round.temp.w, round.temp.bigWs
+//@   ensures [C20.the-stored-share-number-is-not-written] val(old(round.key.Xi)) == old(val(round.key.Xi))
+//@   ensures [C18.offset-applied-to-the-share] (result == nil && old(round.temp.keyDerivationDelta) != nil) ==> val(round.key.Xi) == (old(val(round.temp.keyDerivationDelta)) + old(val(round.key.Xi))) % secpN
+//@   ensures [C20.no-offset-no-change] old(round.temp.keyDerivationDelta) == nil ==> round.key.Xi == old(round.key.Xi)
